@@ -37,6 +37,7 @@ THEOREMS = [
     "BeyondVerif.C07.beta_deltaM_guard",
     "BeyondVerif.C07.beta_elements_reference",
     "BeyondVerif.C07.beta_long_reference",
+    "BeyondVerif.C07.beta_kepler_fuel",
     "BeyondVerif.C07.kepler_unit",
     "BeyondVerif.C07.beta_short_reference",
     "BeyondVerif.C07.beta_frame_reference",
@@ -47,21 +48,30 @@ LEVEL_TEXT = ("Lean theorems: (1) default propagator with the sgp4 package as a 
               "library's result on the original lines and the UTC calendar tuple of the instant (given C12's parse/write identity as hypothesis); the tuple "
               "(CPython's ord2ymd, modelled branch for branch) is a valid civil date that denotes the instant exactly for every date from year 1, and the "
               "library's own Julian-day formula reads it back correctly for 1901-2099; exact correspondence of the arguments really handed to the library. "
-              "(2) native Sgp4Beta translated from its Python AST on every run: orthonormal frame (radius, radial velocity, speed identities for all angles), "
-              "Kepler loop exit => Newton correction < 1e-12 for every fuel, WGS-72 constants, cached a0 = (k_e/n0'')^(2/3) as in the reference's initl "
-              "(true since fix 565c5a9); correspondence 1e-9 relative. 'Native = reference within 1 cm' is oracle-only (passes since 565c5a9).")
-LEVEL_NOTE = ("proof (partial): agreement of the native model with the third-party reference is not a theorem (two floating-point programs) - oracle only; "
-              "the library (SGP4/SDP4 theory itself) is a parameter; TLE text regeneration is C12's (hypothesis here); both past findings are fixed in /repo and pinned in corpus/C07_pinned.json; "
-              "R -> double gap covered by tolerance-bounded correspondence; Lean kernel + propext/Classical.choice/Quot.sound; py2lean translator and harness trusted")
-TECHNIQUE = ("Lean 4 proof: omega/decide on a branch-for-branch model of CPython's calendar split; linear_combination / induction on fuel / norm_num on formulas "
-             "translated from the Python AST; exact and tolerance differential correspondence; oracle against python-sgp4 called directly")
+              "(2) native Sgp4Beta translated from its Python AST on every run, cut into 12 pieces: orthonormal frame, Kepler loop exit => Newton correction "
+              "< 1e-12 for every fuel, WGS-72 constants, a0 = (k_e/n0'')^(2/3). (3) native model = reference theory over R, piece by piece, against a "
+              "hand-written transcription of python-sgp4's _initl/sgp4init/sgp4 near-Earth path (templates/Sgp4Ref.tpl) that is itself compared with the "
+              "package field by field on every run: un-Kozai, s/q0 switches at 156/98 km, C1 C3 C4 C5 D2-D4, secular rates, the whole initialisation "
+              "composed (beta_init_reference), secular+drag update with the guard 'delta_M applied iff e0 > 1e-4' pinned for all inputs, mean elements "
+              "at t (1e-6 floor, node, a, longitude up to whole turns), long-period terms with the 180-degree guard, short-period terms (unit-vector "
+              "identity of atan2's arguments proved), frame x1000. Correspondences 1e-9 relative; 'native = reference within 1 cm' end to end is the oracle.")
+LEVEL_NOTE = ("proof (partial): the two Kepler iterations are not equated (the reference clips corrections to 0.95 and applies the last one; both stop below 1e-12 - "
+              "the residual bound is a theorem), the compositions of propagate are plumbing tied by the correspondences, the reference's deep-space code and error exits "
+              "stay inside the library parameter; TLE text regeneration is C12's (hypothesis here); both past findings are fixed in /repo and pinned in corpus/C07_pinned.json; "
+              "R -> double gap covered by tolerance-bounded correspondences; Lean kernel + propext/Classical.choice/Quot.sound; py2lean translator and harness trusted")
+TECHNIQUE = ("Lean 4 proof: omega/decide on a branch-for-branch model of CPython's calendar split; ring / field_simp / linear_combination / induction on fuel / norm_num on formulas "
+             "translated from the Python AST, equated with a hand-written transcription of the reference implementation; exact and tolerance differential correspondences "
+             "(model vs Sgp4Beta, spec vs python-sgp4, wrapper arguments); directed generator hitting every guard of both implementations from both sides and every exact "
+             "field boundary, with the branch distribution observed on the real code by a line tracer; oracle against python-sgp4 called directly")
 TRUSTED = [
     "harness/py2lean.py + harness/py2lean_ext.py: translate Sgp4Beta.orbit (setter) and Sgp4Beta.propagate (attribute renaming, componentwise numpy 3-vectors, the for/break loop as fuel recursion, "
     "cut into pieces) and the gravity class named by Sgp4Beta.MODEL into Generated/Sgp4Beta{F,R}.lean on every run; statements not translated are an explicit list of exact source lines "
     "(date handling, object construction) and any other statement makes the extraction fail",
+    "lean/templates/Sgp4Ref.tpl (hand-written transcription of sgp4/propagation.py: _initl, sgp4init, sgp4 for method 'n'), tied to the installed package by the correspondence run "
+    "(24 satellite-record fields incl. isimp and the deep-space switch, mean elements am em om Om mm after a call, state; rtol 1e-9)",
     "lean/BeyondVerif/Model/Sgp4Wrap.lean (hand-written: CPython ord2ymd, strftime fields, wrapper control flow), tied by the exact correspondence run (arguments intercepted between beyond and the sgp4 package, stub and real library)",
     "the third-party package sgp4 2.27 (twoline2rv, Satellite.propagate, sgp4.propagation.sgp4) as the reference implementation of Vallado's SGP4/SDP4, WGS-72",
-    "CPython: datetime arithmetic, strftime, float(decimal text) correctly rounded (checked equal to Lean's Float.ofScientific on every sampled value)",
+    "CPython: datetime arithmetic, strftime, float(decimal text) correctly rounded (checked equal to Lean's Float.ofScientific on every sampled value); sys.settrace line events (branch distribution in the evidence only)",
     "numpy / libm double arithmetic vs R: tolerance 1e-9 relative",
 ]
 ASSUMPTIONS = [
@@ -70,21 +80,33 @@ ASSUMPTIONS = [
     "Earth-orientation data in the harness process: constant TAI-UTC = 37 s, UT1-UTC = -0.1234567 s (so that labels differ); no leap-second boundary is crossed",
     "theorems about the native model are over R; the implementation computes in IEEE doubles",
     "fields_jday is exact integer arithmetic; the library evaluates its formula in doubles (resolution 40 us at JD 2.45e6: the property's |v| x 50 us)",
+    "hypotheses of the native = reference theorems: e0^2 < 1, eta^2 < 1 (eta = a0 e0/(a0 - s); true whenever the perigee is above s = 78 km .. 20 km), a0 != 0, a > 0, mu != 0, 1 - e cos E != 0, "
+    "axN^2 + ayN^2 < 1 — all true in the property's domain (perigee >= 220 km); the reference's error exits (mean e >= 1 or < -0.001, nm <= 0, pl < 0, decayed) are not modelled",
 ]
 NOT_COVERED = [
-    "'the native SGP4 returns the same state as the reference within 1 cm where the reference uses its full near-Earth model': two floating-point programs, one third-party - no theorem; S-oracle only (native vs sgp4.propagation.sgp4 at the same minutes since epoch, tolerance 1 cm + |v| x 1 us); it passes since /repo 565c5a9 (before: 2-20 cm, finding C07-native-a0-series, fixed)",
-    "the SGP4/SDP4 theory itself (inside the library parameter `lib`), including deep-space resonance and lunar-solar terms",
-    "native model: no theorem about the secular / long-period / short-period formulas being Vallado's (only translated and compared numerically); objects whose drag polynomial changes the semi-major axis by more than 2 % (oracle) / 20 % (correspondence) within the interval are excluded from the native comparisons (tallied)",
+    "'the native SGP4 returns the same state as the reference within 1 cm' END TO END is the S-oracle (native vs sgp4.propagation.sgp4 at the same minutes since epoch, tolerance 1 cm + |v| x 1 us): "
+    "the theorems equate every piece over R except the Kepler iteration, and the R -> double gap of each side is only bounded by the 1e-9 correspondences; 1 cm is 1.4e-9 of the radius",
+    "the two Kepler iterations are not equated: the reference clips each correction to 0.95 and applies the last one, the native loop does neither; theorem: leaving the native loop through `break` means a Newton correction below 1e-12; "
+    "the generators reach loop exhaustion (10 passes) only outside the property's domain (tallied)",
+    "the SGP4/SDP4 theory itself (inside the library parameter `lib`), including deep-space resonance and lunar-solar terms and the reference's simplified drag model below 220 km (the native model has no such switch; outside the clause)",
+    "objects whose drag polynomial changes the semi-major axis by more than 2 % (oracle) / 20 % (correspondences) within the interval are excluded from the native comparisons (tallied)",
+    "the compositions sgp4Prop / refSgp4 (which output of one piece is handed to the next) are generated / hand-written plumbing: tied by the correspondences, composed in a theorem only for the initialisation (beta_init_reference)",
+    "Sgp4 re-binding after an in-place modification of the orbit (sgp4.py `_state != _bound_to`): not an orbit 'built from a TLE'; the branch is recorded (never taken) in the evidence",
     "double rounding of the seconds field beyond 'within 2^-48 s' (time_resolution takes the half-microsecond bound as hypothesis)",
 ]
 OPEN = [
     "Hinnant days_from_civil as a third independent reading of the tuple was planned and not done (ymd2ord and the library's jday are proved)",
+    "a composed theorem 'sgp4Prop = 1000 x refSgp4 whenever both Kepler loops return the same eccentric longitude' was not written (all pieces are proved)",
 ]
 RULE = ("correspondence: (a) 700/20000 edge datetimes 1957-2056 x 5 labels through the real Sgp4 with a stub library, (b) 300/8000 generated catalogue-like TLEs (all inclinations, e<=0.9, "
         "0.5-16.5 rev/day, |B*|<=1e-2, epochs 1973-2017, +-30 d, date or timedelta argument) through the real Sgp4 with the installed sgp4 package: arguments handed to twoline2rv / "
-        "satrec.propagate intercepted and compared exactly with the model tuple, result compared bit for bit with 1000 x library(model tuple); (c) 500/12000 TLEs x 2 dates: Sgp4Beta init values "
-        "and state vs the compiled Lean translation, rtol 1e-9. non-trivial = offset != 0; distinct = distinct request. oracle: default propagator vs sgp4 called directly on the original lines and "
-        "independently computed UTC fields (|v| x 50 us), the inputs of corpus/C07_pinned.json (past findings) first, timedelta argument, label independence (UTC/TAI/TT/GPS/UT1), native vs reference theory 1 cm in the full near-Earth domain")
+        "satrec.propagate intercepted and compared exactly with the model tuple, result compared bit for bit with 1000 x library(model tuple); (c) 3/24 rounds of the directed generator "
+        "(one TLE per FEATURE: every guard of sgp4beta.py and of the reference's sgp4init from both sides at field resolution, every exact field boundary) + 500/12000 catalogue-like TLEs x 2 dates: "
+        "Sgp4Beta init values and state vs the compiled Lean translation, rtol 1e-9; both sides of every guard of the current source must have been taken (guards read from the AST, taken side "
+        "observed by a line tracer on the real code) or the correspondence fails; (d) the same streams: reference spec vs python-sgp4 (record fields, mean elements, state), rtol 1e-9. "
+        "non-trivial = offset != 0; distinct = distinct request. oracle: pinned corpus, 4/24 rounds of the directed generator, 220/2500 catalogue-like TLEs: default propagator vs sgp4 called directly on the "
+        "original lines and independently computed UTC fields (|v| x 50 us), timedelta argument, label independence (UTC/TAI/TT/GPS/UT1), 3-line TLEs, native vs reference theory 1 cm in the full "
+        "near-Earth domain; branch distribution of the native code, the wrapper and the reference record in the evidence (keys branch*)")
 
 MU_KM = 398600.8          # WGS-72, km^3/s^2 (generator only: perigee heights of the generated TLEs)
 RE_KM = 6378.135
